@@ -84,6 +84,8 @@ def build_alphabet(m, ents, rng=None, small=False):
             group("path_to_dict", X.call("path_to_dict", p, None, c), X.call("path_to_dict", p, config=c),
                   X.call("path_to_dict", path=p, _type=None, config=c))
         add("path_to_dict", X.call("path_to_dict", p, m.natural_type(s), c0))
+        G.append({"tag": "chain", "chain": True, "es": [["path_to_dict", X.call("path_to_dict", p, _type=m.natural_type(s), config=None)],
+                                                       ["path_to_dict", X.call("path_to_dict", p, config=m.natural_type(s), _type=None)]]})
     add("SidPath", X.call("Sid", path="/nowhere/at/all.ma", config=cfgs[0]))
     # path() of a Sid that was built from a path under some configuration, and of the equal string-built Sid
     for (s, c0), p in sorted(paths.items()):
@@ -114,6 +116,13 @@ def build_alphabet(m, ents, rng=None, small=False):
         group("unfold", X.call("unfold_search", s, True), X.call("unfold_search", s, do_uniquify=True),
               X.call("unfold_search", s, True, False))
         add("unfold", X.call("unfold_search", s, True, True))
+        # the same two keywords written in either order, with the values swapped between the names
+        ka = X.call("unfold_search", s, do_uniquify=True, do_extrapolate=False)
+        kb = X.call("unfold_search", s, do_extrapolate=True, do_uniquify=False)
+        add("unfold", ka)
+        add("unfold", kb)
+        G.append({"tag": "chain", "chain": True, "es": [["unfold", ka], ["unfold", kb]]})
+        G.append({"tag": "chain", "chain": True, "es": [["unfold", kb], ["unfold", ka]]})
         add("unfold", X.call("unfold_search", X.sid(s)))
         add("simple_typing", X.call("simple_typing", s))
     for s in (f, star, "foo/bar", d):
